@@ -17,10 +17,14 @@ b3) the labels removed from the live segment list are exactly the labels reporte
 g) MultiUidCompactor::run: every uid plan of the batch either yields a result or fails the whole run (no iteration is skipped), because process_batch registers and retires every uid of the batch.
 h) ZoneMerger::{next_row,next_zone}: a cursor that still has rows after being popped (peek_context_id is Some) is always pushed back onto the heap before the next pop or return.
 f) the read path's decision "does segment s hold uid u" must consult the segment index's uid list rather than probe for leftover files.
+k) every MergePlan gets an output id of its own: the output_segment_id of each MergePlan built by KWayCountPolicy::plan is the result of a RangeAllocator::next_for_level call made for that plan
+   (not a value remembered per chunk position or per level): plans over different input sets that share an output id write into one directory, replace each other's index entry and list the label twice.
+l) ZoneCursorLoader::load_all (the compactor's reader) processes every planned input or fails: no iteration of the loop over the input segments returns to the loop header without having walked
+   that segment's zones (a `continue` on a load error merges the readable inputs only, and the hand-over then retires - and reclaims - the unreadable one as well).
 Not decided: content equality, behaviour after a crash inside a run.
 """
-FLOOR = 10
-REQUIRED = ["C05.a", "C05.b1", "C05.b2", "C05.b3", "C05.c", "C05.d", "C05.e", "C05.f", "C05.g", "C05.h"]
+FLOOR = 12
+REQUIRED = ["C05.a", "C05.b1", "C05.b2", "C05.b3", "C05.c", "C05.d", "C05.e", "C05.f", "C05.g", "C05.h", "C05.k", "C05.l"]
 
 
 def run(ctx):
@@ -306,3 +310,57 @@ def run(ctx):
             raise AnchorMissing("segment_maybe_contains_uid decides by neither index nor file probe")
         return []
     ctx.run("C05.f", "K4 REACH", "QueryPlan::segment_maybe_contains_uid", "retired (uid, segment) pairs stop being read", f)
+
+    def k_(inst):
+        b = F.method("KWayCountPolicy", "CompactionPolicy", "plan")
+        ags = b.aggregates("MergePlan")
+        if len(ags) < 2:
+            raise AnchorMissing("MergePlan aggregates in KWayCountPolicy::plan (%d, confirmed 2)" % len(ags))
+        bad = []
+        for (bb, j, v, dst) in ags:
+            op = v["o"][v["fields"].index("output_segment_id")]
+            L = deep_origins(F, b, op, same_module=True)
+            inst.sites.append("%s: output_segment_id <- %s" % (sp(b, bb), fmt_leaves(L)))
+            fresh = [l for l in L if l[0] == "call" and norm_path(l[1]).endswith("RangeAllocator::next_for_level")]
+            other = [l for l in L if l not in fresh]
+            if not fresh or other:
+                bad.append(("shared-output-id", "a MergePlan's output id comes from %s rather than from a next_for_level call made for this plan: plans over different inputs can share one output segment" % fmt_leaves(other or L), None))
+                continue
+            # the allocation happens in the iteration that builds the plan: no loop header between the call and the aggregate other than via the call's own block
+            for l in fresh:
+                if l[2] < b.n and norm_path(l[1]).endswith("next_for_level"):
+                    c_ = b.call_at(l[2])
+                    if c_ is not None and c_.nname.endswith("next_for_level"):
+                        hs = [h.bb for h in for_headers(b)]
+                        seen = b.reach(c_.bb, cut_blocks=hs)
+                        if bb not in seen:
+                            bad.append(("stale-output-id", "the output id of a MergePlan (%s) is allocated in an earlier loop iteration than the one that builds the plan" % sp(b, bb), None))
+        return bad
+    ctx.run("C05.k", "K7 PROV", "KWayCountPolicy::plan", "every merge plan writes into a freshly allocated output segment", k_)
+
+    def l_(inst):
+        b = F.fn("ZoneCursorLoader::load_all")
+        hs = for_headers(b)
+        zl = one(b, r"ZoneMeta::load$")
+        # the loop over the planned inputs: the for-loop whose body contains the zone-meta load
+        seg = [h for h in hs if b.can_reach(h.bb, zl.bb) and b.can_reach(zl.bb, h.bb) and zl.bb not in b.reach(0, cut_blocks=[h.bb])]
+        if len(seg) > 1:
+            # nested: keep the innermost loop that contains the load (the one every other candidate dominates)
+            seg = [h for h in seg if all(h.bb not in b.reach(0, cut_blocks=[o.bb]) for o in seg if o is not h)]
+        if len(seg) != 1:
+            raise AnchorMissing("the loop over the input segments around ZoneMeta::load in load_all (%d)" % len(seg))
+        h = seg[0]
+        some = variant_edge(b, h, "Some")
+        body_blocks = b.reach(0, src_edges=some, cut_blocks=[h.bb])
+        after = b.reach(zl.bb, cut_blocks=[h.bb])
+        inner = [x for x in hs if x.bb != h.bb and x.bb in body_blocks and x.bb in after and zl.dest and zl.dest[0] in wide_all(b, x.args[0], partial=False)]
+        inner = sorted(inner, key=lambda x: x.bb)[:1]
+        if not inner:
+            raise AnchorMissing("the loop over the segment's zones in load_all")
+        inst.sites = [sp(b, h.bb), sp(b, zl.bb), sp(b, inner[0].bb)]
+        bad = []
+        w = skipped_iteration(b, h, [x.bb for x in inner])
+        if w:
+            bad.append(("input-skipped", "load_all can move on to the next planned input without walking this segment's zones (e.g. on a load error): the merged output silently lacks that input, which the hand-over still retires", w))
+        return bad
+    ctx.run("C05.l", "K9 LOOP", "ZoneCursorLoader::load_all", "the compactor reads every planned input segment or fails", l_)
